@@ -226,3 +226,37 @@ Proof. exact (qr_solve_lsq_from_back_subst back_subst_spec). Qed.
 (* a step that is not skipped: the column (3,4)^T has norm 5 and R(0,0) = tau 0 = -5 *)
 Example C01_qr_instance : snd (qr_mut ROps 2 1 ex_A) 0%nat = -5.
 Proof. exact qr_example. Qed.
+
+(* ============================ what is NOT proved (kept visible) ============================ *)
+(* The body of svd_mut (Householder bidiagonalisation, accumulation, implicit-shift QR sweeps with a
+   30-iteration cap) is transliterated in Model.v for the correspondence check only.  The intended
+   statement about it — partial correctness in exact arithmetic — is the following proposition; it is
+   NOT proved (neither convergence within 30 sweeps nor orthonormality of the accumulated U, V).  What
+   is proved about the SVD is C01_svd_post_invariant (the tail preserves exactly these properties of
+   whatever the sweeps produced) and C01_svd_solve_lsq / C01_svd_solve_min_norm (the solve is right for
+   any factors with these properties); the properties themselves are validated on every run by the
+   search oracle (svd_reconstruct, svd_U_orthonormal, svd_V_orthonormal, svd_s_ordered). *)
+Definition C01_svd_factorisation_full_statement : Prop :=
+  forall (eps minpos : R) (cs : R -> R -> R) m n (A : @Mx R) st, (n <= m)%nat -> 0 < eps -> 0 < minpos ->
+    (forall a f, cs a f = if Rlt_dec f 0 then - Rabs a else Rabs a) ->
+    svd_mut ROps eps cs minpos m n A = Some st ->
+    orthocols m n (sU st) /\ orthocols n n (sV st) /\
+    (forall i k, (i < m)%nat -> (k < n)%nat -> svd_A n (sU st) (sw st) (sV st) i k = A i k) /\
+    (forall j, (j < n)%nat -> 0 <= sw st j) /\
+    (forall a b, (a <= b)%nat -> (b < n)%nat -> sw st b <= sw st a).
+(* the part of it that is proved: IF the state handed to the tail has the properties, the result has them *)
+Theorem C01_svd_factorisation_partial : forall m n (A : @Mx R) st,
+  orthocols m n (sU st) -> orthocols n n (sV st) ->
+  (forall i k, (i < m)%nat -> (k < n)%nat -> svd_A n (sU st) (sw st) (sV st) i k = A i k) ->
+  (forall j, (j < n)%nat -> 0 <= sw st j) ->
+  let st' := svd_post ROps m n st in
+  orthocols m n (sU st') /\ orthocols n n (sV st') /\
+  (forall i k, (i < m)%nat -> (k < n)%nat -> svd_A n (sU st') (sw st') (sV st') i k = A i k) /\
+  (forall j, (j < n)%nat -> 0 <= sw st' j) /\
+  (forall a b, (a <= b)%nat -> (b < n)%nat -> sw st' b <= sw st' a).
+Proof.
+  intros m n A st HU HV HA Hs st'.
+  destruct (svd_post_invariant m n st) as (_ & Hprod & Hsort & Hnn & HoU & HoV).
+  repeat split; [exact (HoU HU) | exact (HoV HV) | | exact (Hnn Hs) | exact Hsort].
+  intros i k Hi Hk. unfold svd_A. rewrite <- (HA i k Hi Hk). unfold svd_A. exact (Hprod i k Hi Hk).
+Qed.
